@@ -1,15 +1,19 @@
 ENTRY = dict(
     runner="C06", pkg="./cmd/c06", corr=["Corr.C06Corr"], n=dict(quick=24, thorough=600),
-    rule="every parrot UTLSIdToSpec accepts (PSK parrots need a session and are counted as build errors), n randomized fingerprints "
-         "(seeds derived from the run seed) and n generated custom specs (3-10 of 16 simple extension kinds in random order, TLS 1.2 or "
-         "1.3 with GREASE, key shares and supported_versions), each built by the code for server name A, fingerprinted under the flag sets "
-         "{none, AllowBluntMimicry+AlwaysAddPadding, RealPSKResumption} (all three for parrots, one each otherwise), re-applied to a "
-         "HelloCustom connection with a server name B of the same length and rebuilt. Go-side oracle on every round trip: legacy version, "
-         "cipher suites, compression methods, extension order and normalised extension bodies agree (GREASE -> 0x0a0a; SNI value, key-share "
-         "keys, ticket, PSK, ECH-GREASE bytes zeroed at equal length; padding body dropped), total lengths agree, and fingerprinting the "
-         "regenerated hello gives the same extension types / suites / compression methods / version bounds. Coq cases for hellos of at most "
-         "300 bytes (700 at the thorough tier): CFp (model vs implementation on the regenerated hello) and CIdem (idempotence oracle "
-         "evaluated by the model on the captured and the regenerated bytes). Distinct by (hello index, flags); non-trivial with >= 1 extension.",
+    rule="every parrot UTLSIdToSpec accepts (the PSK parrots as resuming hellos: their spec with a filled FakePreSharedKeyExtension), n "
+         "randomized fingerprints and 2n generated custom specs cycling through the shapes tls13 / legacy (TLSVersMin/Max in TLS 1.0..1.2, no "
+         "supported_versions) / legacy-sv (supported_versions without 1.3) / scsv (suite lists with 0x5600, 0x00ff, unknown code points) / "
+         "psk-padding (BoringPadding + non-empty pre_shared_key in the padding range) / psk, record-layer version varied up to the "
+         "legacy_version; each built by the code for server name A, fingerprinted under {none, AllowBluntMimicry+AlwaysAddPadding, "
+         "RealPSKResumption} (all three for parrots, in turn otherwise), re-applied to a HelloCustom connection (OmitEmptyPsk) with a server "
+         "name B of the same length, rebuilt, fingerprinted again and rebuilt again (second generation). Go-side oracle on every round trip: "
+         "legacy version, cipher suites, compression methods, extension order and normalised extension bodies agree (GREASE -> 0x0a0a; SNI, "
+         "key-share keys, ticket, PSK, ECH-GREASE bytes zeroed at equal length; padding body dropped), total lengths agree, the two "
+         "fingerprints agree (types, suites, compression, version bounds) and the second generation equals the first in shape and length. "
+         "Excluded: the padding extension AlwaysAddPadding adds to a capture without one, and pre_shared_key under RealPSKResumption (no "
+         "session). Coq cases (packed bytes) for hellos of at most 700 bytes (2000 at thorough): CFp on the captured AND the regenerated "
+         "hello (version bounds, suites, extensions, padding target vs the model) and CIdem (idempotence oracle evaluated by the model). "
+         "Distinct by (hello index, flags, captured/regenerated); non-trivial with >= 1 extension.",
     trusted_base=["harness/extcoq (renderer of extension values)", "harness/cmd/c06 ClientHello parser and normalisation (Go-side oracle)",
                   "C08 (ext_read / ext_write model tie) and C05 (MarshalClientHello framing) for the claim that hello_record is what the code emits"],
     assumes=["the theorems speak about hello_record, the RFC encoding of a hello given by extension values; that MarshalClientHello emits "
